@@ -177,6 +177,22 @@ static void c10_skinny(uint64_t idx, vh_rng *r)
                 c->ctr_cleanup(&h2);
                 if (memcmp(&p1, &p2, sizeof(p1))) bad = "rejected-call-changed-later-results";
             }
+            if (!should_accept && !ret && !bad) {   /* "untouched" includes the stream position: a rejected call in the middle of a block / batch must not disturb the stream */
+                vh_handle h3, h4; uint8_t s3[200], s4[200], zz[200]; unsigned pre = 1 + vh_below(r, 8 * bb - 1), more = 5 * bb + 3;
+                memset(&h3, 0, sizeof(h3)); memset(&h4, 0, sizeof(h4)); memset(zz, 0, sizeof(zz));
+                c->ctr_init(&h3); c->ctr_init(&h4);
+                if (tweaked) { c->ctr_set_tkey(&h3, old, 2 * bb); c->ctr_set_tkey(&h4, old, 2 * bb); c->ctr_set_tweak(&h3, old + 32, bb); c->ctr_set_tweak(&h4, old + 32, bb); }
+                else { c->ctr_set_key(&h3, old, 3 * bb, 0); c->ctr_set_key(&h4, old, 3 * bb, 0); }
+                c->ctr_set_counter(&h3, ctrv, bb); c->ctr_set_counter(&h4, ctrv, bb);
+                c->ctr_encrypt(s3, zz, pre, &h3); c->ctr_encrypt(s4, zz, pre, &h4);
+                vh_call_begin(ename[e]);
+                if (tweaked) c->ctr_set_tkey(&h3, kp, L); else c->ctr_set_key(&h3, kp, L, 0);
+                vh_call_end();
+                c->ctr_encrypt(s3, zz, more, &h3); c->ctr_encrypt(s4, zz, more, &h4);
+                c->ctr_cleanup(&h3); c->ctr_cleanup(&h4);
+                VH_COUNT("rejected_calls_checked_in_mid_stream", 1);
+                if (memcmp(s3, s4, more)) bad = "rejected-call-disturbed-the-stream";
+            }
             if (should_accept && ret) {
                 c->ctr_init(&h2);
                 if (tweaked) c->ctr_set_tkey(&h2, padded, padlen); else c->ctr_set_key(&h2, padded, padlen, 0);
@@ -276,6 +292,19 @@ static void c10_mantis(uint64_t idx, vh_rng *r)
             c->ctr_set_counter(&h, in, 8); c->ctr_encrypt(o2, z, 24, &h);
             if (legal) for (i = 0; i < 3; ++i) { memcpy(cb, in, 8); ref_ctr_add(cb, 8, i); ref_mantis_encrypt(R, keybytes, NULL, cb, exp_ + 8 * i); }
             c->ctr_cleanup(&h);
+            if (!legal && !ret) {   /* a rejected call in the middle of a block / batch must not disturb the stream */
+                vh_handle h3, h4; uint8_t s3[80], s4[80], zz[80]; unsigned pre = 1 + vh_below(r, 63), more = 43;
+                memset(&h3, 0, sizeof(h3)); memset(&h4, 0, sizeof(h4)); memset(zz, 0, sizeof(zz));
+                c->ctr_init(&h3); c->ctr_init(&h4);
+                c->ctr_set_key(&h3, old, 16, 7); c->ctr_set_key(&h4, old, 16, 7); c->ctr_set_tweak(&h3, tw, 8); c->ctr_set_tweak(&h4, tw, 8);
+                c->ctr_set_counter(&h3, in, 8); c->ctr_set_counter(&h4, in, 8);
+                c->ctr_encrypt(s3, zz, pre, &h3); c->ctr_encrypt(s4, zz, pre, &h4);
+                vh_call_begin(en[e]); c->ctr_set_key(&h3, kp, L, R); vh_call_end();
+                c->ctr_encrypt(s3, zz, more, &h3); c->ctr_encrypt(s4, zz, more, &h4);
+                c->ctr_cleanup(&h3); c->ctr_cleanup(&h4);
+                VH_COUNT("rejected_calls_checked_in_mid_stream", 1);
+                if (memcmp(s3, s4, more)) bad = "rejected-call-disturbed-the-stream";
+            }
         } else {
             vh_handle h; unsigned i; memset(&h, 0, sizeof(h));
             c->par_init(&h);
